@@ -160,7 +160,11 @@ func main() {
 	replay := flag.String("replay", "", "replay file")
 	deadline := flag.Int("deadline", 0, "override the internal deadline in seconds")
 	free := flag.Int("free", 0, "conformance pass: run every scenario of the DAG family this many times free-running (use the -race build)")
+	lit := flag.Bool("litmus", false, "validate the runtime's channel/mutex/select model against Go (exhaustive vs. free running)")
 	flag.Parse()
+	if *lit {
+		os.Exit(runLitmus())
+	}
 	if *free > 0 {
 		w, n := *worker, *workers
 		if w < 0 {
